@@ -70,6 +70,10 @@ func c01SameView(l, r config.MetadataConfig, path string) bool {
 	if !same {
 		return false
 	}
+	// the name the API shows for the entry (FileInfo.Name of Stat and of an open handle)
+	if NewFileInfoFromTarHeader(hl, verifLogger{}).Name() != NewFileInfoFromTarHeader(hr, verifLogger{}).Name() {
+		return false
+	}
 	if hl.Typeflag == tar.TypeDir {
 		ll, e1 := inventory.List(l, path, -1, nil)
 		lr, e2 := inventory.List(r, path, -1, nil)
